@@ -12,6 +12,13 @@ bool ops_map(Ctx& c, const json& s, int idx, bool& handled) {
 		if (m.WidthInTiles() != s["w"].get<uint32_t>()) return bad("width"); if (m.HeightInTiles() != s["h"].get<uint32_t>()) return bad("height"); if (m.GetVersionTag() != s["ver"].get<uint32_t>()) return bad("version");
 		if (m.IsSavedGame() != s["saved"].get<bool>()) return bad("saved flag"); if (m.TileCount() != s["tiles"].get<std::size_t>()) return bad("tile count");
 		if (m.tilesetSources.size() != s["nsrc"].get<std::size_t>() || m.tileMappings.size() != s["nmap"].get<std::size_t>() || m.terrainTypes.size() != s["nter"].get<std::size_t>() || m.tileGroups.size() != s["ngrp"].get<std::size_t>()) return bad("table sizes");
+		// equality helpers of the parts: a map read twice has equal clip rectangles and tileset sources, != is the negation of ==
+		{ Map m2 = map_from(in); if (!(m2.clipRect == m.clipRect) || (m2.clipRect != m.clipRect)) return bad("clip rectangle helpers");
+			{ const Rect small{1, 2, 5, 9}; if (small.Width() != 4 || small.Height() != 7) return bad("Rect::Width / Height"); }       // (extents of the arbitrary rectangles a file may hold can exceed 32 bits: not asked for)
+			Rect r2 = m.clipRect; r2.y2 ^= 1; if (r2 == m.clipRect || !(r2 != m.clipRect)) return bad("clip rectangles differing in one field compare equal");
+			for (std::size_t i = 0; i < m.tilesetSources.size(); ++i) { if (!(m2.tilesetSources[i] == m.tilesetSources[i]) || (m2.tilesetSources[i] != m.tilesetSources[i])) return bad("tileset source equality");
+				TilesetSource t = m.tilesetSources[i]; t.numTiles += 1; if (t == m.tilesetSources[i] || !(t != m.tilesetSources[i])) return bad("tileset sources differing in the tile count compare equal");
+				t = m.tilesetSources[i]; t.tilesetFilename += "x"; if (t == m.tilesetSources[i] || !(t != m.tilesetSources[i])) return bad("tileset sources differing in the file name compare equal"); } }
 		auto out1 = map_bytes(m); if (out1 != canon) { Proto::mismatch(site, "bytes", where("first write " + Scen::hexdiff(out1, canon))); return false; }
 		Map m2; if (throws([&] { m2 = map_from(out1); })) { Proto::mismatch(site, "reread-refused", where("")); return false; } auto out2 = map_bytes(m2); if (out2 != out1) { Proto::mismatch(site, "not-byte-stable", where(Scen::hexdiff(out2, out1))); return false; }
 		return true; }
